@@ -54,7 +54,8 @@ def strip_layer_ud(l):
 
 
 import re as _re
-_IMG = _re.compile(r"(\d+x\d+):[0-9a-f]{16}:([0-9a-f]{16})(:[0-9a-f]*)?")
+# dimensions are u16 (or their sum): bounded repetitions keep the scan linear on long hex fields
+_IMG = _re.compile(r"(?<![0-9a-fx])(\d{1,6}x\d{1,6}):[0-9a-f]{16}:([0-9a-f]{16})(:[0-9a-f]*)?")
 
 
 def canon_line(l):
@@ -168,13 +169,13 @@ def run_both(files, profile="release", verbose=False, outcome_only=False):
 # ------------------------------------------------------------------------------------------
 # well-formed families
 
-def wf_routine(prefixes, gens, rule, oracle=must_load_oracle, corpus=True, extra=None, spec_backed=None):
+def wf_routine(prefixes, gens, rule, oracle=must_load_oracle, corpus=True, extra=None, spec_backed=None, big=()):
     def run(ctx, scale):
         res = Result(rule)
         rng = random.Random(ctx.seed * 7919 + scale)
         files = []
         model_obs = {}
-        files += vlib.verif_corpus_wf()
+        files += vlib.verif_corpus_wf(include_big=big)
         if corpus and scale == 1:
             files += vlib.corpus_files()
         pre_n = len(files)
@@ -197,6 +198,20 @@ def wf_routine(prefixes, gens, rule, oracle=must_load_oracle, corpus=True, extra
             return oracle(cid, data, impl, model) if oracle else None
         compare_cases(res, files, model_obs, impl_obs, prefixes, orc, what=",".join(prefixes[:4]) + ",…",
                       spec_backed=spec_backed)
+        # the same files in the build with overflow checks and debug assertions: same observation
+        # (a wrapped or checked arithmetic difference is a difference in what the API reports)
+        chk_obs, _ = vlib.run_impl(vlib.load_lines(files), "relchk")
+        for cid, data in files:
+            if cid == "color-curve.aseprite":
+                continue
+            a, b = vlib.section(impl_obs[cid], prefixes + ["load"]), vlib.section(chk_obs.get(cid) or ["load missing"], prefixes + ["load"])
+            res.evaluations += 1
+            if a != b:
+                d = vlib.first_diff(a, b)
+                res.oracle_failures.append({"id": cid, "input_hex": data.hex(), "build_profile": "relchk",
+                                            "call": "whole-API observation, optimised build vs build with overflow checks + debug assertions",
+                                            "what": f"the build with overflow checks and debug assertions reports `{d[2][:300]}` "
+                                                    f"where the optimised build reports `{d[1][:300]}`"})
         if extra:
             extra(ctx, scale, res, files, model_obs, impl_obs)
         return res
@@ -280,6 +295,29 @@ def structure_cases():
     tilesets = [("ts-", []), ("ts0n1", [tileset(0, 1)]), ("ts0n2", [tileset(0, 2)]), ("ts1n2", [tileset(1, 2)]),
                 ("ts0n0", [tileset(0, 0)]), ("ts0n2+1n1", [tileset(0, 2), tileset(1, 1)])]
     layers = [("img", layer(0, 0)), ("grp", layer(1, 0)), ("tm0", layer(2, 0)), ("tm1", layer(2, 1)), ("tm7", layer(2, 7))]
+    def img(w, h, ctype=0):
+        px = bytes([5, 6, 7, 255]) * (w * h)
+        body = px if ctype == 0 else zlib.compress(px)
+        return mk_chunk(0x2005, struct.pack("<HhhBH", 0, 0, 0, 255, ctype) + bytes(7) + struct.pack("<HH", w, h) + body)
+    ud = mk_chunk(0x2020, struct.pack("<I", 1) + struct.pack("<H", 2) + b"ud")
+    for w, h in ((0, 0), (0, 3), (2, 0)):
+        for ctype in (0, 2):
+            cels.append((f"img{w}x{h}t{ctype}", [img(w, h, ctype)]))
+            cels.append((f"img{w}x{h}t{ctype}+ud", [img(w, h, ctype), ud]))
+    link = mk_chunk(0x2005, struct.pack("<HhhBH", 0, 0, 0, 255, 1) + bytes(7) + struct.pack("<H", 0))
+    for tn, ts in tilesets:
+        for ln, l in layers:
+            for cn, c in cels:
+                # a second frame whose cel links to the first frame's (image, tilemap or nothing)
+                out.append((f"xref2/{tn}/{ln}/{cn}", mk_header(2, 2, 2) + mk_frame(ts + [l] + c) + mk_frame([link])))
+    # tileset chunks whose declared sizes are extreme in all three fields at once
+    for depth in (8, 16, 32):
+        for count in (0xFFFFFFFF, 0x80000000, 0x40008001, 0x10000, 1):
+            for tw, th in ((65535, 65535), (65535, 1), (1, 65535), (256, 256)):
+                z = zlib.compress(bytes(16))
+                t = mk_chunk(0x2023, struct.pack("<IIIHHh", 0, 2, count, tw, th, 1) + bytes(14) + struct.pack("<H", 0)
+                             + struct.pack("<I", len(z)) + z)
+                out.append((f"tsx/{depth}/{count:x}/{tw}x{th}", mk_header(1, 2, 2, depth) + mk_frame([t, mk_layer()])))
     for tn, ts in tilesets:
         for ln, l in layers:
             for cn, c in cels:
@@ -412,11 +450,12 @@ def register(pid, run, **kw):
 register("C01", wf_routine(STRUCT, [("struct", 300, 20000), ("plain", 100, 2000)],
          "corpus files + type-directed generated well-formed programs (all attribute ranges); "
          "distinct = distinct structure observations of loaded sprites",
-         spec_backed="C01.decode_encode / loaded_layers / loaded_slices / loaded_tags / sprite_frameTimes and the per-chunk round trips"))
+         spec_backed="C01.decode_encode / loaded_layers / loaded_slices / loaded_tags / sprite_frameTimes and the per-chunk round trips",
+         big=("frames",)))
 register("C02", wf_routine(RENDER, [("render", 300, 10000), ("struct", 100, 2000)],
          "generated layer stacks (19 blend modes, opacities, hidden layers/groups, linked, tilemap, "
          "off-canvas cels); distinct = distinct frame-image observations",
-         spec_backed="C02.frameImage_spec (point-wise composition) with C03.blend_eq_ref"))
+         spec_backed="C02.frameImage_spec (point-wise composition) with C03.blend_eq_ref", big=("layers",)))
 register("C06", wf_routine(CELS, [("rgba", 120, 3000), ("gray", 120, 3000), ("indexed", 160, 4000)],
          "generated sprites in each pixel format (sparse palettes, alpha<255, all transparent-index "
          "values, background flag, raw and zlib, links); distinct = distinct cel observations",
@@ -446,7 +485,7 @@ def c19_extra(ctx, scale, res, files, model_obs, impl_obs):
 register("C19", wf_routine(CELS + RENDER + ["tilemap"], [("render", 200, 5000), ("tiles", 100, 3000)],
          "generated sprites with frames != layers; the three cel routes, single-layer frames, tilemap images",
          spec_backed="the model's single cel function of (frame, layer) + C19.single_layer_frame_eq_cel / tilemap_view_cel",
-         extra=c19_extra))
+         extra=c19_extra, big=("layers",)))
 register("C04", malformed_routine(no_panic_oracle, [], "field-aware boundary mutations (single and paired) of "
          "corpus and generated files, truncations, noise, in release and release+overflow-checks+"
          "debug-assertions builds; distinct = distinct (input kind, outcome) pairs", True),
@@ -560,6 +599,12 @@ def blend_routine(laws, rule):
                             "pixel": k, "mode": mode, "backdrop": b.hex(), "source": s.hex(),
                             "opacity": op, "result": r.hex(), "call": "Frame::image"})
                         break
+        # generated multi-layer sprites (several cels per frame, groups, tilemaps, background flags,
+        # sparse high layer indices): the blend functions as the compositor calls them
+        if scale == 1:
+            gen = wf_routine(["frameimg", "celA", "tilemap", "tileimg"], [("render", 120, 3000), ("tiles", 60, 1500), ("rgba", 40, 1000)], "",
+                             corpus=False, spec_backed="C02.frameImage_spec / C06.celImage_spec / C08.tilemapImage_spec with C03.blend_eq_ref")(ctx, scale)
+            res.merge(gen)
         # the same pixel pairs with the source stored as a tilemap layer (the tilemap renderer has
         # its own blend dispatch)
         if scale == 1:
@@ -685,7 +730,7 @@ def feature_mutants(cid, b):
     for pw, ph in ((2, 1), (1, 2), (3, 3), (255, 255), (2, 2)):
         m = bytearray(b); m[34] = pw; m[35] = ph
         out.append((f"feat/ratio/{cid}={pw}:{ph}", bytes(m)))
-    for d in (0, 1, 7, 9, 15, 24, 31, 33, 64, 65535):
+    for d in (0, 1, 7, 9, 15, 24, 31, 33, 64, 256 + 8, 256 + 16, 256 + 32, 0x2000, 65535):
         add("depth", 12, 2, d)
     for kind, off, ln in vlib.walk_chunks(b):
         if not kind.startswith("chunk:"):
@@ -693,27 +738,27 @@ def feature_mutants(cid, b):
         ty = int(kind[6:], 16)
         p = off + 6
         if ty == 0x2007:
-            for v in (2, 3, 65535):
+            for v in (2, 3, 256, 257, 258, 0xFF00, 65535):
                 add("profile-type", p, 2, v)
             flags = struct.unpack_from("<H", b, p + 2)[0]
             add("profile-gamma", p + 2, 2, flags | 1)
         elif ty == 0x2004:
-            for v in (3, 4, 255, 65535):
+            for v in (3, 4, 255, 256, 257, 258, 0xFF00, 65535):
                 add("layer-type", p + 2, 2, v)
-            for v in (19, 20, 255, 65535):
+            for v in (19, 20, 255, 256, 256 + 18, 0xFF00, 0x8000, 65535):
                 add("blend", p + 10, 2, v)
         elif ty == 0x2005:
             ctype = struct.unpack_from("<H", b, p + 7)[0]
-            for v in (4, 5, 255, 65535):
+            for v in (4, 5, 255, 256, 257, 258, 259, 0x0100 | ctype, 0xFF00 | ctype, 0x8000 | ctype, 65535):
                 add("cel-type", p + 7, 2, v)
             if ctype == 3:
-                for v in (0, 8, 16, 31, 33, 64):
+                for v in (0, 8, 16, 31, 33, 64, 256 + 32, 0x2000, 65535):
                     add("bits-per-tile", p + 20, 2, v)
         elif ty == 0x2018:
             n = struct.unpack_from("<H", b, p)[0]
             q = p + 10
             for _ in range(n):
-                for v in (3, 4, 255):
+                for v in (3, 4, 128, 255):
                     add("anim-dir", q + 4, 1, v)
                 ln_name = struct.unpack_from("<H", b, q + 17)[0]
                 q += 19 + ln_name
@@ -850,7 +895,7 @@ def c11_extra(ctx, scale, res, files, model_obs, impl_obs):
                 if ctype == 0:
                     w, h = struct.unpack_from("<HH", b, p + 16)
                     n = w * h
-                    for k in sorted(set([0, n // 2, n - 1])):
+                    for k in (sorted(set([0, n // 2, n - 1])) if n else []):
                         bad.append((f"badindex/{cid}@{p + 20 + k}", vlib.mutate(b, p + 20 + k, 1, 255)))
         has_pixels = any(k in ("chunk:2005", "chunk:2023") for k, _, _ in vlib.walk_chunks(b))
         if pal_off is not None and has_pixels:
@@ -927,7 +972,8 @@ def c18_run(ctx, scale):
         entries = [rng.choice(colours) + (rng.choice([0, 128, 255]),) for _ in range(cnt)]
         f = pal_file(first, entries)
         failure = rng.randrange(256)
-        transp = rng.choice(["-", str(rng.randrange(256))])
+        # the transparent index often is an index the palette uses (and differs from the failure index)
+        transp = rng.choice(["-", str(rng.randrange(256)), str((first + rng.randrange(cnt)) % 256), str((first + rng.randrange(cnt)) % 256)])
         qs = [c + (255,) for c in colours] + [c + (rng.randrange(255),) for c in colours[:2]] + \
              [(rng.randrange(256), rng.randrange(256), rng.randrange(256), 255) for _ in range(3)]
         qb = bytes(x for q in qs for x in q)
@@ -1067,7 +1113,13 @@ def c13_run(ctx, scale):
         if vlib.outcome(impl) != "err":
             return "a truncated file did not fail to load: " + vlib.outcome_detail(impl)
         return None
-    compare_batched(res, files, [], orc, what="truncated prefix", load_only=True, outcome_only=True, batch=100000)
+    for profile in ("release", "relchk"):
+        sub = Result()
+        compare_batched(sub, files, [], orc, what=f"truncated prefix [{profile}]", load_only=True, outcome_only=True,
+                        batch=100000, profile=profile)
+        for f in sub.oracle_failures + sub.corr_diffs:
+            f["build_profile"] = profile
+        res.merge(sub)
     for cid, data in files:
         res._distinct.add(hash(cid))
     res.distribution["files"] = len(base)
@@ -1075,7 +1127,7 @@ def c13_run(ctx, scale):
     return res
 
 
-register("C13", c13_run)
+register("C13", c13_run, profiles=("release", "relchk"))
 
 
 def c14_run(ctx, scale):
@@ -1090,7 +1142,9 @@ def c14_run(ctx, scale):
     base = [(c, b) for c, b in base if len(b) <= 2600]
     reqs = []
     meta = {}
-    kinds = [3, 4, 5, 6, 0, 1, 7]     # Other, BrokenPipe, TimedOut, PermissionDenied, UnexpectedEof, InvalidInput, ConnectionReset
+    # Other, BrokenPipe, TimedOut, PermissionDenied, UnexpectedEof, InvalidInput, ConnectionReset, WouldBlock,
+    # InvalidData, OutOfMemory, NotFound
+    kinds = [3, 4, 5, 6, 0, 1, 7, 8, 2, 9, 10]
     for cid, b in base:
         hx = b.hex()
         end = end_of_last_frame(b) or len(b)
@@ -1115,9 +1169,17 @@ def c14_run(ctx, scale):
             code = kinds[(k // step) % len(kinds)]
             ev = ",".join(["d1"] * k + [f"f{code}"])
             add(f"fail{code}@{k}", ev, f"io:{'UnexpectedEof' if code == 0 else code}")
-        # a hard error after everything needed was delivered must not matter
+        # events after everything needed was delivered must not matter: the loader has no reason to
+        # call read() again (the result depends on the bytes only)
         add("fail-after-end", ",".join(["d1"] * len(b) + ["f3"]) if end == len(b) else
-            ",".join(["d1"] * end + ["d1000000", "f3"]), "same-or-io")
+            ",".join(["d1"] * end + ["d1000000", "f3"]), "same" if end == len(b) else "same-or-io")
+        if end == len(b):
+            add("interrupted-at-end", ",".join(["d1"] * len(b) + ["i"]), "same")
+            add("wouldblock-at-end", ",".join(["d1"] * len(b) + ["f8"]), "same")
+        # every kind at one fixed offset inside the data
+        for code in kinds:
+            k = min(end - 1, 130 + code)
+            add(f"kind{code}@{k}", ",".join(["d1"] * k + [f"f{code}"]), f"io:{'UnexpectedEof' if code == 0 else code}")
     m, _ = vlib.run_model(reqs)
     i, _ = vlib.run_impl(reqs)
     res.sections = ALL
@@ -1208,6 +1270,11 @@ def hostile_memory_inputs(ctx, scale):
         cel = mk_chunk(0x2005, struct.pack("<HhhBH", 0, 0, 0, 255, 3) + bytes(7)
                        + struct.pack("<HHHIIII", w, h, 32, 0x1fffffff, 0x20000000, 0x40000000, 0x80000000) + bytes(10) + z)
         out.append((f"bomb-tilemap/{w}x{h}", mk_header(1, 4, 4) + mk_frame([tileset, layer, cel])))
+    # one large compressible cel and many frames linking to it (links must stay links)
+    zb = zlib.compress(bytes([7, 7, 7, 255]) * (2048 * 2048), 9)
+    f0 = mk_frame([mk_layer(), mk_chunk(0x2005, struct.pack("<HhhBH", 0, 0, 0, 255, 2) + bytes(7) + struct.pack("<HH", 2048, 2048) + zb)])
+    lk = mk_chunk(0x2005, struct.pack("<HhhBH", 0, 0, 0, 255, 1) + bytes(7) + struct.pack("<H", 0))
+    out.append(("bomb-linked/2048x40", mk_header(41, 4, 4) + f0 + mk_frame([lk]) * 40))
     # a deflate bomb inside a tileset made of very many 1x1 tiles (per-tile bookkeeping)
     for depth, ntiles in ((8, 1 << 22), (32, 1 << 20)):
         z = zlib.compress(bytes(ntiles * (depth // 8)), 9)
@@ -1422,7 +1489,7 @@ def ud_chunk(text):
 def c10_sequences(maxlen):
     """all sequences over the 8 chunk kinds up to length maxlen that satisfy the quantifier's side
     conditions; yields (kinds, expected attachments)"""
-    kinds = ["layer", "cel", "slice", "tags2", "oldpal", "pal", "ign", "ud", "ude", "brk"]
+    kinds = ["layer", "cel", "celz", "slice", "tags2", "oldpal", "pal", "ign", "ud", "ude", "brk"]
     def rec(seq, ctx, used, nlayers, ncels, pending_tags, depth):
         if seq:
             yield list(seq)
@@ -1456,6 +1523,13 @@ def c10_sequences(maxlen):
                     continue       # layers are declared in the first frame
                 seq.append(k)
                 yield from rec(seq, ("layer", nlayers), used, nlayers + 1, ncels, pending_tags, depth - 1)
+                seq.pop()
+            elif k == "celz":
+                # a cel without pixels (zero width): an entity like any other cel
+                if ncels >= nlayers or "celz" in seq:
+                    continue
+                seq.append(k)
+                yield from rec(seq, ("cel", seq.count("brk"), ncels), used, nlayers, ncels + 1, pending_tags, depth - 1)
                 seq.pop()
             elif k == "cel":
                 if ncels >= nlayers:
@@ -1500,6 +1574,9 @@ def c10_build(seq):
             chunks.append(mk_layer(name=b"L%d" % nl)); ctx = ("layer", nl); nl += 1
         elif k == "cel":
             chunks.append(mk_chunk(0x2005, struct.pack("<HhhBH", ncel, 0, 0, 255, 0) + bytes(7) + struct.pack("<HH", 1, 1) + bytes([1, 2, 3, 255])))
+            ctx = ("cel", len(frames) - 1, ncel); ncel += 1
+        elif k == "celz":
+            chunks.append(mk_chunk(0x2005, struct.pack("<HhhBH", ncel, 0, 0, 255, 0) + bytes(7) + struct.pack("<HH", 0, 3)))
             ctx = ("cel", len(frames) - 1, ncel); ncel += 1
         elif k == "slice":
             chunks.append(mk_chunk(0x2022, struct.pack("<III", 0, 0, 0) + struct.pack("<H", 1) + b"s")); ctx = ("slice", ns); ns += 1
@@ -1660,6 +1737,24 @@ def c16_run(ctx, scale):
     for k in range(len(other)):
         (ca, a), (cb, b) = other[k], other[(k + 1) % len(other)]
         hist[f"histo/{k}"] = (ca, a, cb, b)
+    # a history that starts with a REJECTED file: loads failing at different depths (framing,
+    # decompression with partial output, validation), then a valid file on the same thread
+    bad = [(c, b) for c, b in vlib.verif_corpus() if len(b) < 20000]
+    zfiles = [(c, b) for c, b in files if any(k in ("chunk:2005", "chunk:2023") and sz > 60 for k, off, sz in vlib.walk_chunks(b))][:12]
+    for c, b in zfiles[:6]:
+        # the same file with its compressed payloads damaged: a truncated stream, a stream of the wrong size
+        for kind, off, sz in vlib.walk_chunks(b):
+            if kind == "chunk:2005" and sz > 60 and struct.unpack_from("<H", b, off + 6 + 7)[0] == 2:
+                m1 = bytearray(b); m1[off + sz - 5] ^= 0x41
+                bad.append((c + "(damaged stream)", bytes(m1)))
+                m2 = bytearray(b); w = struct.unpack_from("<H", b, off + 6 + 16)[0]
+                struct.pack_into("<H", m2, off + 6 + 16, (w + 1) & 0xffff)
+                bad.append((c + "(wrong size)", bytes(m2)))
+                break
+    good = (zfiles + files[:8])[:16]
+    for k, (ca, a) in enumerate(bad):
+        cb, b = good[k % len(good)]
+        hist[f"histbad/{k}"] = (ca, a, cb, b)
     hreqs = [f"HISTORY {hid} {a.hex()} {b.hex()}" for hid, (ca, a, cb, b) in hist.items()]
     outs = {}
     houts = {}
@@ -1818,7 +1913,7 @@ def c09_run(ctx, scale):
     compare_batched(res, files, ["layers", "layer", "frameimg"], orc, what="parents / visibility / frame image", verbose=True)
     res.distribution["forests"] = len(files)
     res.distribution["max_layers"] = maxn
-    gen = wf_routine(["layers", "layer", "frameimg"], [("forest", 150, 20000), ("render", 60, 2000)], "", corpus=False,
+    gen = wf_routine(["layers", "layer", "frameimg"], [("forest", 150, 20000), ("render", 60, 2000)], "", corpus=False, big=("layers",),
                      spec_backed="C09.parents_spec / isVisible_spec with C02.frameImage_spec (hidden layers contribute nothing)")(ctx, scale)
     res.merge(gen)
     res.exhaustive = True
